@@ -43,8 +43,7 @@ JUDGE_DEFERRED = '''        def JUDGE(S0, S1, margs):
                     blocked = False
                     for _, a, b, dyn in S["dep"]:
                         if b == s and dyn and a in S["file"]:
-                            st, det = S["file"][a][1], S["node"][a][4]
-                            if st == 18 or (not det and st in (15, 17)):
+                            if S["file"][a][1] not in (14, 16):
                                 blocked = True
                     if not blocked:
                         out.append(s)
@@ -56,7 +55,13 @@ JUDGE_DEFERRED = '''        def JUDGE(S0, S1, margs):
 
 
 def _deferred_ok(wf):
-    """deferred => some dynamic input is unavailable (written from the dispatch rule of C10)."""
+    """deferred => some dynamic input is not CONFIRMED or BUILT.  (This is the project's own meaning of a
+    legitimate deferral -- the docstring of Step.has_unavailable_dynamic_input and the comment on
+    _INSERT_PEND_FILE_BLOCK in pending.py; a first version used the dispatch rule, which ignores
+    detached inputs, and raised a false alarm: DESIGN.md section 11.)"""
+    from vf.symsql.model import enums
+
+    FileState, _, _ = enums()
     import z3
 
     from vf.symsql.values import bz
@@ -68,7 +73,8 @@ def _deferred_ok(wf):
         for d, r in enumerate(wf.deps):
             for f in range(wf.K):
                 e = z3.And(bz(r.present), r.vals["sink"].v == j + 1, r.vals["source"].v == f + 1, bz(wf.files[f].present), wf.is_dyn(d))
-                blocks.append(z3.And(e, wf.unavailable_input(f, z3.BoolVal(True))))
+                st = wf.files[f].vals["state"].v
+                blocks.append(z3.And(e, st != FileState.CONFIRMED.value, st != FileState.BUILT.value))
         cons.append(z3.Implies(z3.And(bz(s.present), s.vals["deferred"].v != 0), z3.Or(*blocks) if blocks else z3.BoolVal(False)))
     return cons
 
